@@ -48,7 +48,7 @@ impl<A: Obs, B: Obs> Obs for (A, B) {
         (v0.wrapping_mul(7) ^ v1.rotate_left(3), a0.wrapping_mul(3).wrapping_add(a1))
     }
 }
-pub type Buf = ([u8; 24], usize);
+pub type Buf = ([u8; 12], usize);
 #[derive(Copy, Clone)]
 pub struct In<'a> {
     pub a: &'a [u8],
@@ -231,8 +231,8 @@ def program(fam, name, ch, cname, force_std_oracle=False, witness=None):
         std_chain = ch.s
         std_cons = sc
     if cname == "for_each":
-        k_body = ("    let mut buf: Buf = ([0; 24], 0);\n    konst::iter::for_each!{e in %s =>\n        buf.0[buf.1] = e.val();\n        buf.1 += 1;\n    }\n    buf\n" % kargs)
-        s_body = ("    let mut buf: Buf = ([0; 24], 0);\n    for e in %s {\n        buf.0[buf.1] = e.val();\n        buf.1 += 1;\n    }\n    buf\n" % std_chain)
+        k_body = ("    let mut buf: Buf = ([0; 12], 0);\n    konst::iter::for_each!{e in %s =>\n        buf.0[buf.1] = e.val();\n        buf.1 += 1;\n    }\n    buf\n" % kargs)
+        s_body = ("    let mut buf: Buf = ([0; 12], 0);\n    for e in %s {\n        buf.0[buf.1] = e.val();\n        buf.1 += 1;\n    }\n    buf\n" % std_chain)
     else:
         obs = ".map(|e| e.obs())" if rty == "Option<(u8, usize)>" else ""
         k_body = "    konst::iter::eval!(%s, %s)%s\n" % (kargs, kc, obs)
@@ -246,7 +246,7 @@ def program(fam, name, ch, cname, force_std_oracle=False, witness=None):
         let b: [u8; 4] = kani::any();
         let nested: [[u8; 2]; 2] = kani::any();
         let (la, lb, ln): (usize, usize, usize) = kani::any();
-        kani::assume(la <= 4 && lb <= 4 && ln <= 2);
+        kani::assume(la <= %d && lb <= 4 && ln <= 2);
         let (lo, hi, c, d): (u8, u8, u8, u8) = kani::any();
         kani::assume(lo >= hi || hi - lo <= 3);
         kani::assume(lo < 250);
@@ -257,13 +257,13 @@ def program(fam, name, ch, cname, force_std_oracle=False, witness=None):
         let k = k_run(i);
         let s = s_run(i);
         %s
-        must_reach!(la == 4 && lb == 3 && ln == 2 && hi > lo && hi - lo == 3, "full-size inputs");
+        must_reach!(la == %d && lb == 3 && ln == 2 && hi > lo && hi - lo == 3, "full-size inputs");
         must_reach!(la == 0 || ln == 0 || lo >= hi, "an empty source");
     }
     tiers! { %s: unwind(12, 12), check(), check(),
         calls("konst::iter::%s!(%s)"),
         bounds("slices <=4 (nested <=2x2), ranges <=4 items, take/skip/nth arguments 0..=5, every closure of the mask/xor families; oracle: %s", "same")%s }
-""" % (cmp, name, "for_each" if cname == "for_each" else "eval", (", ".join(ch.names) + ", " + cname).replace('"', "'"), oracle,
+""" % (3 if ("flat_map" in ch.names or "flatten" in ch.names) else 4, cmp, 3 if ("flat_map" in ch.names or "flatten" in ch.names) else 4, name, "for_each" if cname == "for_each" else "eval", (", ".join(ch.names) + ", " + cname).replace('"', "'"), oracle,
        (',\n        kf_witness("%s")' % witness) if witness else "")
     desc = "%s | %s | oracle: %s%s" % (", ".join(ch.names), cname, oracle, " | IN KNOWN-FINDING REGION" if in_region else "")
     fam.add(name, desc, plain, harness)
